@@ -135,6 +135,8 @@ PROPS = {
  "C16": (True, "other", T_C + BOUNDED,
          "Proved: the local reference discipline T-REF for all functions of the object-keyed/-valued TUs except 31 listed ones. "
          "M-IDX: lazy sequences and iterators read a leaf only inside its current length (slots beyond it hold released references). "
+         "M-NULL: results of fallible CPython constructors are checked before they are dereferenced or stored (found and fixed: a NULL "
+         "iterator released in update(): segmentation fault, 069bdf6). "
          "Bounded: slot-level ownership (refcount equation per call) over histories (refcount_rt). Memory bounds in general are not proved.",
          "A4 new/borrowed/steals table, A5-A7; functions outside the contract are listed in evidence; M-BND not discharged", "7/C16"),
  "C17": (True, "proof", T_C + "; bounded fault enumeration through the guarded allocation-failure hook (alloc_rt), every faulted call in its own process",
